@@ -165,14 +165,23 @@ Definition process_syn (c : conn) (id : Z) (fin : bool) (cl : Z) (bad : bool) : 
     else if bad then then_tickle (reset_stream c1 id 1)
     else (c1, []).
 
-(* processData; result also says whether window was taken / bytes dropped without refund *)
+(* refundDiscardedData + the stream error that follows: a dropped DATA frame of n bytes is charged to the
+   session window and returned at once (WINDOW_UPDATE(0, n) first, then the RST_STREAM); if it does not
+   fit the session window the stream error is FLOW_CONTROL_ERROR and nothing is returned.
+   (take n then add n leaves sc.inflow unchanged.) *)
+Definition drop_data (c : conn) (id n code : Z) : conn * list val :=
+  if n =? 0 then then_tickle (reset_stream c id code)
+  else if cinflow c <? n then then_tickle (reset_stream c id 7)
+  else let '(c', fs) := then_tickle (reset_stream c id code) in (c', emit c [f_wu 0 n] ++ fs).
+
+(* processData *)
 Definition process_data (c : conn) (id n : Z) (fin : bool) : conn * list val :=
   match find_s id (strs c) with
-  | None => then_tickle (reset_stream c id 2)                                     (* INVALID_STREAM *)
+  | None => drop_data c id n 2                                                   (* INVALID_STREAM *)
   | Some s =>
-    if negb (sstate s =? 1) then then_tickle (reset_stream c id 9)                (* STREAM_ALREADY_CLOSED *)
+    if negb (sstate s =? 1) then drop_data c id n 9                              (* STREAM_ALREADY_CLOSED *)
     else if negb (hasbody s) then (c, [Bug])
-    else if negb (decl s =? -1) && (decl s <? bodyb s + n) then then_tickle (reset_stream c id 1)
+    else if negb (decl s =? -1) && (decl s <? bodyb s + n) then drop_data c id n 1   (* Content-Length overrun *)
     else
       let step2 (c : conn) (s : stream) : conn * list val :=
         if fin then
@@ -182,11 +191,13 @@ Definition process_data (c : conn) (id n : Z) (fin : bool) : conn * list val :=
       if 0 <? n then
         if zmin (sinflow s) (cinflow c) <? n then then_tickle (reset_stream c id 7)   (* FLOW_CONTROL_ERROR *)
         else
-          (* inflow.take(n) on stream and connection, then body.Write *)
-          let c1 := set_cin c (cinflow c - n) in
+          (* inflow.take(n) on stream and connection, then body.Write; a failed write hands the
+             session window back (sendWindowUpdate(nil, n)) before the stream is reset *)
           if bclosed s || (INITWIN <? buf s + n) then
-            then_tickle (reset_stream (upd c1 (s_with_in s (sinflow s - n) (buf s) (bodyb s) 1)) id 9)
+            let '(c', fs) := then_tickle (reset_stream (upd c (s_with_in s (sinflow s - n) (buf s) (bodyb s) 1)) id 9) in
+            (c', emit c [f_wu 0 n] ++ fs)
           else
+            let c1 := set_cin c (cinflow c - n) in
             let s1 := s_with_in s (sinflow s - n) (buf s + n) (bodyb s + n) 1 in
             step2 (upd c1 s1) s1
       else step2 c s
